@@ -98,6 +98,12 @@ impl AttributeParser {
     }
 
     fn parse_group(&mut self, name: Ident, group: TokenStream) -> Nested {
+        // Consume the separator that follows the group, so that the next
+        // nested attribute starts at its name and `name(...)` can be
+        // followed by further arguments.
+        // TODO: Error if there are any tokens following
+        let _ = self.collect_tail(Empty);
+
         Nested::Named(name, NestedValue::Group(group))
     }
 
